@@ -77,7 +77,7 @@ m = {
     ],
     "checks": checks,
     "not_applicable": [{"property_id": k, "reason": v} for k, v in sorted(NA.items()) if k not in CLAIMED],
-    "notes": "Exit codes of every check: 0 held, 1 VIOLATION line(s) printed, 2 harness error. VERIF_SEED selects the seed (default 20261004). Known findings are listed in /verif/known_findings.json.",
+    "notes": "Exit codes of every check: 0 held, 1 VIOLATION line(s) printed, 2 harness error. VERIF_SEED selects the seed (default 20261004). Known findings are listed in /verif/known_findings.json (one known: K1; seven fixed by `fix:` commits in /repo: D1-D7, replays under /verif/findings). The syscall-level cases of C04, C08, C09 and C10 need /usr/bin/strace with ptrace allowed and are skipped with a WARNING otherwise. Seeded property-breaking changes and what catches them: /verif/seeded/<id>/meta.json and DESIGN.md 16.2, 17.5-17.10.",
 }
 json.dump(m, open(os.path.join(HERE, "MANIFEST.json"), "w"), indent=1)
 print("MANIFEST.json written:", len(checks), "checks,", len(m["not_applicable"]), "not applicable")
